@@ -39,3 +39,23 @@ void h_swap_modes(void)
     mantis_swap_modes(ks);
     VCANARY();
 }
+
+/* C09: any overlap / alignment for the single-block Mantis functions */
+static void verif_overlap_crypt(uint8_t *buf, unsigned a, unsigned b, const MantisKey_t *ks)
+__CPROVER_requires(__CPROVER_is_fresh(buf, 15) && a <= 7 && b <= 7)
+__CPROVER_requires(__CPROVER_is_fresh(ks, sizeof(MantisKey_t)) && ks->rounds <= MANTIS_MAX_ROUNDS)
+__CPROVER_assigns(__CPROVER_object_upto(buf + b, 8), VM_GHOSTS)
+__CPROVER_ensures(VM_OUT_IS_GHOST(buf + b, VG_S))
+{
+    mantis_ecb_crypt(buf + b, buf + a, ks);
+}
+static void verif_overlap_crypt_tweaked(uint8_t *buf, unsigned a, unsigned b, const void *tweak, const MantisKey_t *ks)
+__CPROVER_requires(__CPROVER_is_fresh(buf, 15) && a <= 7 && b <= 7 && __CPROVER_is_fresh(tweak, 8))
+__CPROVER_requires(__CPROVER_is_fresh(ks, sizeof(MantisKey_t)) && ks->rounds <= MANTIS_MAX_ROUNDS)
+__CPROVER_assigns(__CPROVER_object_upto(buf + b, 8), VM_GHOSTS)
+__CPROVER_ensures(VM_OUT_IS_GHOST(buf + b, VG_S))
+{
+    mantis_ecb_crypt_tweaked(buf + b, buf + a, tweak, ks);
+}
+void h_overlap_crypt(void) { uint8_t *buf; unsigned a, b; const MantisKey_t *ks; verif_overlap_crypt(buf, a, b, ks); VCANARY(); }
+void h_overlap_crypt_tweaked(void) { uint8_t *buf; unsigned a, b; const void *t; const MantisKey_t *ks; verif_overlap_crypt_tweaked(buf, a, b, t, ks); VCANARY(); }
